@@ -392,7 +392,7 @@ def r7_streams(chk, repo):
     chk.describe("C16.R7", "chunk streams are handled whole: wrapper generators around a loader yield every chunk they take, and a loader that is consumed once per target is created once per target")
     R = "C16.R7"
     n = 0
-    for q, p in (("Context.copy_to_frontend", CONTEXT), ("rechunker", RECH)):
+    for q, p in (("Context.copy_to_frontend", CONTEXT), ("Context.merge_per_chunk_storage", CONTEXT), ("rechunker", RECH)):
         f = repo.func(q, p)
         for fn, take, item, loop in passthrough_generators(f):
             n += 1
@@ -404,7 +404,7 @@ def r7_streams(chk, repo):
                 if isinstance(st, (ast.Return, ast.Break)) and enclosing(st, (ast.While, ast.For)) is loop:
                     h = enclosing(st, (ast.ExceptHandler,))
                     chk.check(h is not None and h.type is not None and "StopIteration" in norm(h.type), R, f, st, f"{q}.{fn.name}: the wrapper stops although its source is not exhausted", site_text=f"{q}.{fn.name}: ends only on StopIteration")
-    chk.floor(R, "wrapper generators around loaders", n, 2)
+    chk.floor(R, "wrapper generators around loaders", n, 3)
     from .c03 import decompressors_drain
     decompressors_drain(chk, repo, R)
     # one loader per target
